@@ -19,7 +19,6 @@ use crate::{
     corpus::{mode_name, Corpus, MODES},
     ctx::{hex, Ctx, Part, Tier},
     refspec::{limit, GenOpts, TextMode},
-    rng::Rng,
     sess::{expected_results, short},
     transport::{classify, mode_of, noop_waker, ref_frames, runtime, AsyncTransport, Ev, Handle, RAct, ReadResult, WAct},
 };
@@ -261,7 +260,7 @@ pub fn run(ctx: &mut Ctx) -> (&'static str, String, bool) {
             let rt = runtime();
             let _g = rt.enter();
             let mut p = Part::new();
-            if miri && (*ji as u64) % nshards != shard {
+            if miri && ((*ji as u64) % (3 * nshards) != 3 * shard || !*compressed) {
                 return p;
             }
             let mk_plans = || {
@@ -291,6 +290,9 @@ pub fn run(ctx: &mut Ctx) -> (&'static str, String, bool) {
             // every single drop point
             for k in 1..=total + 2 {
                 for wad in [false, true] {
+                    if miri && wad && k % 2 == 0 {
+                        continue;
+                    }
                     let mut s = base.clone();
                     let _ = s.drops.insert(k);
                     s.write_after_drop = wad;
@@ -305,7 +307,7 @@ pub fn run(ctx: &mut Ctx) -> (&'static str, String, bool) {
                 }
             }
             // every pair of drop points
-            let pair_cap = if miri { 6 } else if thorough { 60 } else { 24 };
+            let pair_cap = if miri { 4 } else if thorough { 60 } else { 24 };
             let lim = (total + 2).min(pair_cap);
             for k1 in 1..=lim {
                 for k2 in k1 + 1..=lim + 2 {
@@ -320,7 +322,7 @@ pub fn run(ctx: &mut Ctx) -> (&'static str, String, bool) {
                 }
             }
             // select!-style strobe: drop at every n-th poll
-            for nth in 1..=5usize {
+            for nth in 1..=if miri { 2usize } else { 5usize } {
                 let mut s = base.clone();
                 s.drops = (1..400).filter(|k| k % nth == 0).collect();
                 if nth == 1 {
@@ -397,7 +399,7 @@ pub fn run(ctx: &mut Ctx) -> (&'static str, String, bool) {
     for p in parts {
         ctx.merge(p);
     }
-    if ctx.part.counters.get("drops_on_write-half").copied().unwrap_or(0) == 0 || ctx.part.counters.get("drops_on_read-half").copied().unwrap_or(0) == 0 {
+    if !miri && ctx.part.counters.get("drops_on_write-half").copied().unwrap_or(0) == 0 || ctx.part.counters.get("drops_on_read-half").copied().unwrap_or(0) == 0 {
         ctx.inconclusive("the drop plans never hit both suspension points (read half and write half)");
     }
     ctx.assume("cooperative single-task schedules: the read future is polled by hand under a paused-clock current-thread runtime and dropped right after a poll that returned Pending; suspension points are the scripted transport's Pending returns");
